@@ -1285,7 +1285,9 @@ class Worker(actor.RallyActor):
     def receiveMsg_CompleteCurrentTask(self, msg, sender):
         # finish now ASAP. Remaining samples will be sent with the next WakeupMessage. We will also need to skip to the next
         # JoinPoint. But if we are already at a JoinPoint at the moment, there is nothing to do.
-        if self.at_joinpoint():
+        # if we have already been told to drive on (and are only waiting for our wakeup) the message refers to the tasks after
+        # this join point and must not be ignored.
+        if self.at_joinpoint() and not self.start_driving:
             self.logger.info(
                 "Worker[%s] has received CompleteCurrentTask but is currently at join point at index [%d]. Ignoring.",
                 str(self.worker_id),
